@@ -330,3 +330,62 @@ theorem call_inputEmpty (src : List Nat) (s : F.σ) (last : Bool) (budget : Budg
     · rename_i hz; simp only [hz]; exact run_inputEmpty F k last src s' budget.dec h
 
 end EncodingRs.Lemmas.Core
+
+namespace EncodingRs.Lemmas.Core
+open EncodingRs.Model
+variable (F : Fam) (k : Sink)
+
+/-- a non-`last` call that returns `OutputFull` stopped before a byte of the source -/
+theorem run_outputFull_lt : ∀ (src : List Nat) (s : F.σ) (budget : Budget),
+    (run F k false s src budget).res = .outputFull → (run F k false s src budget).read < src.length := by
+  intro src
+  induction src with
+  | nil => intro s budget h; simp [run] at h
+  | cons b tl ih =>
+    intro s budget h
+    rw [run] at h ⊢
+    cases hstop : stopHere F k s b tl budget with
+    | some r =>
+      simp only [hstop] at h ⊢
+      cases budget with
+      | unlimited => simp [stopHere] at hstop
+      | full n =>
+        simp only [stopHere] at hstop
+        split at hstop
+        · cases hstop; simp
+        · cases hstop
+      | altAny =>
+        simp only [stopHere] at hstop
+        cases ha : F.alt s (b :: tl) with
+        | none => simp [ha] at hstop
+        | some p =>
+          obtain ⟨m, r'⟩ := p
+          simp only [ha] at hstop
+          split at hstop
+          · cases hstop; cases h
+          · cases hstop
+    | none =>
+      simp only [hstop] at h ⊢
+      cases hE : (F.feed s b).err with
+      | none =>
+        simp only [hE] at h ⊢
+        have := ih _ _ h
+        simp only [List.length_cons]; omega
+      | some e => simp only [hE] at h; cases h
+
+theorem call_outputFull_lt (src : List Nat) (s : F.σ) (budget : Budget)
+    (h : (call F k s src false budget).res = .outputFull) (hne : src ≠ []) :
+    (call F k s src false budget).read < src.length := by
+  unfold call at h ⊢
+  cases hp : F.pend s with
+  | none => simp only [hp] at h ⊢; exact run_outputFull_lt F k src s budget h
+  | some p =>
+    obtain ⟨o, s'⟩ := p
+    simp only [hp] at h ⊢
+    split
+    · cases src with
+      | nil => exact absurd rfl hne
+      | cons _ _ => simp
+    · rename_i hz; simp only [hz] at h; exact run_outputFull_lt F k src s' budget.dec h
+
+end EncodingRs.Lemmas.Core
